@@ -213,6 +213,288 @@ Example C05_nonvacuous_finders :
     = Some (Node 0 [Node 1 []; Node 1 []]).
 Proof. vm_compute. auto. Qed.
 
+(* =====================================================================================
+   NON-VACUITY (audit): every theorem of this file APPLIED to a concrete non-trivial
+   instance (Coq checks that what is discharged are the theorems' own hypotheses), plus
+   computed `_value` instances showing which witness / branch is taken.
+     aP : 5 labels, 8 rules; the greatest fixed point is {0,1,2}, labels 3 and 4 are pruned
+     aI : 5 labels; bottom-up derivable with recursion to the root only
+     aF : 3 labels, 5 rules, closed, four proof trees of sizes 3,4,5,6 for the root
+     aq_rep/aq_rules : 8 recorded rules over 9 labels, two non-trivial classes {0,10},{1,11};
+          the start label 10 is NOT its own representative *)
+Definition aP : rdict :=
+  [(0, [[1; 2]; [3]]); (1, [[]; [1; 4]]); (2, [[0]]); (3, [[5]]); (4, [[4; 9]])].
+Definition aI : rdict := [(0, [[1; 0]; [7]]); (1, [[2]]); (2, [[]]); (3, [[3]]); (4, [[5]])].
+Definition aF : rdict := [(0, [[1; 1]; [2]]); (1, [[0]; []]); (2, [[1; 1; 1]])].
+Definition a_runA : list choice := [([1; 1], [1; 1]); ([0], [0]); ([], []); ([2], [])].
+Definition a_runB : list choice :=
+  [([2], [2]); ([1; 1; 1], [1; 1; 1]); ([], []); ([], []); ([], [])].
+Definition a_tA : tree := Node 0 [Node 1 [Node 0 []]; Node 1 []].      (* size 4 *)
+Definition a_tB : tree := Node 0 [Node 2 [Node 1 []; Node 1 []; Node 1 []]].   (* size 5 *)
+Definition a_tMin : tree := Node 0 [Node 1 []; Node 1 []].            (* size 3 *)
+Definition aq_rep (x : Z) : Z := if x =? 10 then 0 else if x =? 11 then 1 else x.
+Definition aq_rules : list (Z * rule) :=
+  [(10, [1; 2]); (0, [10]); (1, []); (2, [11]); (3, [4]); (5, [3; 0]); (10, [2]); (6, [6; 11])].
+Definition aq_pd : rdict := [(0, [[1; 2]; [2]]); (1, [[]]); (2, [[1]]); (6, [[1; 6]])].
+Definition aq_run : list choice := [([1; 2], [2; 1]); ([1], [1]); ([], []); ([], [])].
+
+Lemma aP_nonempty : all_nonempty aP.
+Proof. apply all_nonempty_check. reflexivity. Qed.
+Lemma aF_closed : closed aF.
+Proof.
+  apply (prune_closed aF aF); [apply all_nonempty_check|]; reflexivity.
+Qed.
+
+(* --- prune *)
+Example C05_prune_gfp_nonvacuous :
+  exists d', prune aP = Some d' /\
+    (forall k, has_key d' k = true <-> gfp aP k) /\
+    (forall k r, In r (rules_of d' k) <->
+                 In r (rules_of aP k) /\ gfp aP k /\ forall x, In x r -> gfp aP x).
+Proof. apply (C05_prune_gfp aP aP_nonempty). Qed.
+
+(* the witness is the computed dictionary; through the theorem: 0 is in the greatest fixed
+   point, 3 and 4 are not (both sides of the equivalences occur), the rule 0 -> (3) is dropped *)
+Example C05_prune_gfp_value :
+  prune aP = Some [(0, [[1; 2]]); (1, [[]]); (2, [[0]])] /\
+  gfp aP 0 /\ ~ gfp aP 3 /\ ~ gfp aP 4 /\
+  (In [3] (rules_of aP 0) /\ ~ (forall x, In x [3] -> gfp aP x)).
+Proof.
+  destruct (C05_prune_gfp aP aP_nonempty) as (d' & E & HK & HR).
+  assert (E' : prune aP = Some [(0, [[1; 2]]); (1, [[]]); (2, [[0]])]) by (vm_compute; reflexivity).
+  rewrite E' in E. injection E as <-.
+  assert (N3 : ~ gfp aP 3) by (intros H; apply HK in H; discriminate H).
+  split; [exact E'|]. split; [apply HK; reflexivity|]. split; [exact N3|].
+  split; [intros H; apply HK in H; discriminate H|].
+  split; [simpl; auto|]. intros H. apply N3, H. simpl; auto.
+Qed.
+
+(* hypothesis-free; prune needs three passes here (fuel 2 is out of fuel), the fuel S (nrules d) = 9 suffices *)
+Example C05_prune_terminates_nonvacuous :
+  prune aP <> None /\ prune_loop 2 aP = None /\ prune_loop 3 aP <> None.
+Proof.
+  split; [exact (C05_prune_terminates aP)|]. split; [vm_compute; reflexivity|].
+  vm_compute; discriminate.
+Qed.
+
+(* --- iterative_prune *)
+Example C05_iterative_lfp_nonvacuous :
+  exists nd, iterative_prune aI (Some 0) = Some nd /\
+    (forall k r, In r (rules_of nd k) <->
+                 In r (rules_of aI k) /\ forall x, In x r -> iver aI (Some 0) x) /\
+    (forall k, has_key nd k = true <-> ikey aI (Some 0) k).
+Proof. apply (C05_iterative_lfp aI (Some 0)). Qed.
+
+Example C05_iterative_lfp_value :
+  iterative_prune aI (Some 0) = Some [(2, [[]]); (1, [[2]]); (0, [[1; 0]])] /\
+  iterative_prune aI None = Some [(2, [[]]); (1, [[2]])] /\
+  ikey aI (Some 0) 0 /\ ~ ikey aI None 0 /\ ~ ikey aI (Some 0) 3 /\ ~ ikey aI (Some 0) 4 /\
+  (forall x, In x [1; 0] -> iver aI (Some 0) x).
+Proof.
+  destruct (C05_iterative_lfp aI (Some 0)) as (nd & E & HR & HK).
+  destruct (C05_iterative_lfp aI None) as (nd0 & E0 & _ & HK0).
+  assert (E' : iterative_prune aI (Some 0) = Some [(2, [[]]); (1, [[2]]); (0, [[1; 0]])])
+    by (vm_compute; reflexivity).
+  assert (E0' : iterative_prune aI None = Some [(2, [[]]); (1, [[2]])])
+    by (vm_compute; reflexivity).
+  rewrite E' in E. injection E as <-. rewrite E0' in E0. injection E0 as <-.
+  split; [exact E'|]. split; [exact E0'|]. split; [apply HK; reflexivity|].
+  split; [intros H; apply HK0 in H; discriminate H|].
+  split; [intros H; apply HK in H; discriminate H|].
+  split; [intros H; apply HK in H; discriminate H|].
+  apply (HR 0 [1; 0]). simpl; auto.
+Qed.
+
+(* --- the quotient dictionary; aq_rep is not the identity *)
+Example C05_quotient_rules_nonvacuous :
+  In [1; 2] (rules_of (rules_up_to_equivalence aq_rep aq_rules) 0) /\
+  In [1] (rules_of (rules_up_to_equivalence aq_rep aq_rules) 2) /\
+  ~ In [0] (rules_of (rules_up_to_equivalence aq_rep aq_rules) 0).
+Proof.
+  split; [|split].
+  - apply (C05_quotient_rules aq_rep aq_rules 0 [1; 2]). exists 10, [1; 2].
+    split; [simpl; auto|]. split; [exact I|]. split; reflexivity.
+  - apply (C05_quotient_rules aq_rep aq_rules 2 [1]). exists 2, [11].
+    split; [simpl; auto 6|]. split; [vm_compute; discriminate|]. split; reflexivity.
+  - (* the recorded rule 0 -> (10) lies inside the class {0,10}: not kept *)
+    intros H. apply (C05_quotient_rules aq_rep aq_rules 0 [0]) in H.
+    destruct H as (start & ends & Hin & Hk & Hs & He).
+    simpl in Hin.
+    repeat (destruct Hin as [Hin|Hin]; [injection Hin as <- <-; try discriminate He;
+                                        try (apply Hk; reflexivity)|]).
+    destruct Hin.
+Qed.
+
+Example C05_quotient_value :
+  rules_up_to_equivalence aq_rep aq_rules =
+  [(0, [[1; 2]; [2]]); (1, [[]]); (2, [[1]]); (3, [[4]]); (5, [[0; 3]]); (6, [[1; 6]])].
+Proof. vm_compute. reflexivity. Qed.
+
+Example C05_quotient_nonempty_nonvacuous :
+  all_nonempty (rules_up_to_equivalence aq_rep aq_rules) /\ ~ all_nonempty [(0, [])].
+Proof.
+  split; [exact (C05_quotient_nonempty aq_rep aq_rules)|]. intros H. apply (H 0). reflexivity.
+Qed.
+
+(* --- has_specification: start label 10, representative 0 *)
+Example C05_has_spec_recursive_nonvacuous :
+  exists b, has_specification aq_rep aq_rules 10 false = Some b /\
+    (b = true <-> gfp (rules_up_to_equivalence aq_rep aq_rules) (aq_rep 10)).
+Proof. apply (C05_has_spec_recursive aq_rep aq_rules 10). Qed.
+
+(* both answers occur: class of 10 has a specification, class of 5 has none *)
+Example C05_has_spec_recursive_value :
+  has_specification aq_rep aq_rules 10 false = Some true /\
+  has_specification aq_rep aq_rules 5 false = Some false /\
+  gfp (rules_up_to_equivalence aq_rep aq_rules) 0 /\
+  ~ gfp (rules_up_to_equivalence aq_rep aq_rules) 5.
+Proof.
+  destruct (C05_has_spec_recursive aq_rep aq_rules 10) as (b & E & H).
+  destruct (C05_has_spec_recursive aq_rep aq_rules 5) as (b' & E' & H').
+  assert (X : has_specification aq_rep aq_rules 10 false = Some true) by (vm_compute; reflexivity).
+  assert (X' : has_specification aq_rep aq_rules 5 false = Some false) by (vm_compute; reflexivity).
+  rewrite X in E. injection E as <-. rewrite X' in E'. injection E' as <-.
+  split; [exact X|]. split; [exact X'|]. split; [apply H; reflexivity|].
+  intros G. apply H' in G. discriminate G.
+Qed.
+
+Example C05_has_spec_iterative_nonvacuous :
+  exists b, has_specification aq_rep aq_rules 10 true = Some b /\
+    (b = true <->
+     ikey (rules_up_to_equivalence aq_rep aq_rules) (Some (aq_rep 10)) (aq_rep 10)).
+Proof. apply (C05_has_spec_iterative aq_rep aq_rules 10). Qed.
+
+(* both answers occur; label 3 (rule 3 -> (4), 4 has no rule) is the `false` case *)
+Example C05_has_spec_iterative_value :
+  has_specification aq_rep aq_rules 10 true = Some true /\
+  has_specification aq_rep aq_rules 3 true = Some false /\
+  ikey (rules_up_to_equivalence aq_rep aq_rules) (Some 0) 0 /\
+  ~ ikey (rules_up_to_equivalence aq_rep aq_rules) (Some 3) 3.
+Proof.
+  destruct (C05_has_spec_iterative aq_rep aq_rules 10) as (b & E & H).
+  destruct (C05_has_spec_iterative aq_rep aq_rules 3) as (b' & E' & H').
+  assert (X : has_specification aq_rep aq_rules 10 true = Some true) by (vm_compute; reflexivity).
+  assert (X' : has_specification aq_rep aq_rules 3 true = Some false) by (vm_compute; reflexivity).
+  rewrite X in E. injection E as <-. rewrite X' in E'. injection E' as <-.
+  split; [exact X|]. split; [exact X'|]. split; [apply H; reflexivity|].
+  intros G. apply H' in G. discriminate G.
+Qed.
+
+(* --- validity of the returned trees *)
+Example C05_tree_valid_random_nonvacuous :
+  label a_tA = 0 /\ valid_tree aF a_tA /\ NoDup (expansions (node_rules a_tA)).
+Proof. apply (C05_tree_valid_random aF 0 a_runA a_tA). vm_compute. reflexivity. Qed.
+
+(* two runs: the first builds the 5-node tree, the second the 4-node tree, which wins *)
+Example C05_tree_valid_smallish_nonvacuous :
+  label a_tA = 0 /\ valid_tree aF a_tA /\ NoDup (expansions (node_rules a_tA)).
+Proof.
+  apply (C05_tree_valid_smallish aF 0 [a_runB; a_runA] a_tA). vm_compute. reflexivity.
+Qed.
+
+Example C05_tree_valid_dfs_nonvacuous :
+  label a_tB = 0 /\ valid_tree aF a_tB /\ NoDup (expansions (node_rules a_tB)).
+Proof. apply (C05_tree_valid_dfs aF 0 None a_tB). vm_compute. auto. Qed.
+
+(* valid_tree is not a trivial predicate: the breadth-first witness of
+   C05_bfs_generator_refuted fails it; here a second near miss, a rule that is not in aF *)
+Example C05_valid_tree_discriminates : ~ valid_tree aF (Node 0 [Node 1 []]).
+Proof.
+  intros (V1 & _). destruct (V1 0 [1]) as (r & Hr & HP); [vm_compute; auto|discriminate|].
+  apply Permutation_sym, Permutation_length_1_inv in HP. subst r.
+  vm_compute in Hr. destruct Hr as [Hr|[Hr|[]]]; discriminate Hr.
+Qed.
+
+(* FTree branch *)
+Example C05_tree_valid_iterative_nonvacuous :
+  let t := Node 0 [Node 1 [Node 2 []]; Node 0 []] in
+  ikey aI (Some 0) 0 /\ label t = 0 /\ valid_tree aI t /\ iterative_leaves aI 0 t.
+Proof. exact (C05_tree_valid_iterative aI 0). Qed.
+
+(* FValueError branch: 4 -> (5) and 5 has no rule *)
+Example C05_tree_valid_iterative_value :
+  iterative_proof_tree_finder aI 0 = FTree (Node 0 [Node 1 [Node 2 []]; Node 0 []]) /\
+  iterative_proof_tree_finder aI 4 = FValueError /\ ~ ikey aI (Some 4) 4.
+Proof.
+  split; [vm_compute; reflexivity|]. split; [vm_compute; reflexivity|].
+  exact (C05_tree_valid_iterative aI 4).
+Qed.
+
+(* --- size *)
+Example C05_size_formula_nonvacuous :
+  size a_tB = 1 + arities (node_rules a_tB) /\ size a_tB = 5 /\ size a_tMin = 3.
+Proof. split; [exact (C05_size_formula a_tB)|]. split; reflexivity. Qed.
+
+(* --- the bounded depth-first generator *)
+Example C05_dfs_bounded_sound_nonvacuous : size a_tA <= 4.
+Proof. apply (C05_dfs_bounded_sound aF 0 4 a_tA). vm_compute. auto. Qed.
+
+(* the bound really filters: 4 trees (sizes 3,4,5,6) without bound, 2 with maximum 4 *)
+Example C05_dfs_bounded_complete_nonvacuous :
+  proof_tree_generator_dfs aF 0 (Some 4) =
+  filter (fun t => size t <=? 4) (proof_tree_generator_dfs aF 0 None) /\
+  map size (proof_tree_generator_dfs aF 0 None) = [3; 4; 5; 6] /\
+  proof_tree_generator_dfs aF 0 (Some 4) = [a_tMin; a_tA].
+Proof.
+  split; [exact (C05_dfs_bounded_complete aF 0 4)|]. split; vm_compute; reflexivity.
+Qed.
+
+(* three levels of extra fuel; too little fuel does change the list, so the statement is
+   not true of any fuel *)
+Example C05_dfs_fuel_enough_nonvacuous :
+  (if has_key aF 0
+   then map snd (dfs_tree (sort_dict aF) (dfs_fuel aF + 3) [] None 0)
+   else []) = proof_tree_generator_dfs aF 0 None /\
+  map snd (dfs_tree (sort_dict aF) 2 [] None 0) <> proof_tree_generator_dfs aF 0 None.
+Proof.
+  split; [exact (C05_dfs_fuel_enough aF 0 None 3 aF_closed)|]. vm_compute. discriminate.
+Qed.
+
+(* a valid tree of size 5 (validity through C05_tree_valid_dfs); the generator has one not larger *)
+Example C05_dfs_covers_every_tree_nonvacuous :
+  exists t', In t' (proof_tree_generator_dfs aF 0 None) /\ size t' <= size a_tB.
+Proof.
+  apply (C05_dfs_covers_every_tree aF 0 a_tB aF_closed eq_refl).
+  apply C05_tree_valid_dfs_nonvacuous.
+Qed.
+
+(* --- 'smallest' *)
+Example C05_smallest_defined_nonvacuous :
+  get_smallest_node aF 0 [a_runB; a_runA] <> None /\
+  (* an oracle that is not a run of random (the rule (7) is not in the set): both sides None *)
+  get_smallest_node aF 0 [[([7], [7])]] = None.
+Proof.
+  split.
+  - intros H. apply (C05_smallest_defined aF 0 [a_runB; a_runA]) in H. vm_compute in H.
+    discriminate H.
+  - apply (C05_smallest_defined aF 0 [[([7], [7])]]). vm_compute. reflexivity.
+Qed.
+
+(* the random trees have sizes 5 and 4; the binary search finds the 3-node tree *)
+Example C05_smallest_minimum_nonvacuous :
+  label a_tMin = 0 /\ valid_tree aF a_tMin /\
+  forall t, label t = 0 -> valid_tree aF t -> size a_tMin <= size t.
+Proof.
+  apply (C05_smallest_minimum aF 0 [a_runB; a_runA] a_tMin aF_closed). vm_compute. reflexivity.
+Qed.
+
+(* RuleDB path: recorded rules, start label 10 with representative 0; the random tree has
+   4 nodes (rule 0 -> (1,2)), the smallest 3 (rule 0 -> (2)) *)
+Example C05_smallest_minimum_ruledb_nonvacuous :
+  let res := Node 0 [Node 2 [Node 1 []]] in
+  label res = aq_rep 10 /\ valid_tree aq_pd res /\
+  forall t, label t = aq_rep 10 -> valid_tree aq_pd t -> size res <= size t.
+Proof.
+  apply (C05_smallest_minimum_ruledb aq_rep aq_rules 10 [aq_run] aq_pd (Node 0 [Node 2 [Node 1 []]])).
+  - vm_compute. reflexivity.
+  - vm_compute. reflexivity.
+Qed.
+
+Example C05_smallest_minimum_ruledb_value :
+  random_proof_tree aq_pd 0 aq_run = Some (Node 0 [Node 2 [Node 1 []]; Node 1 []]) /\
+  get_smallest_node aq_pd 0 [aq_run] = Some (Node 0 [Node 2 [Node 1 []]]).
+Proof. split; vm_compute; reflexivity. Qed.
+
 Print Assumptions C05_prune_gfp.
 Print Assumptions C05_prune_terminates.
 Print Assumptions C05_prune_refuted_on_empty_ruleset.
